@@ -265,6 +265,8 @@ fn htmldoc(inp: &str) {
         match f[0] {
             "scripting" => tbo.scripting_enabled = f[1] == "1",
             "srcdoc" => tbo.iframe_srcdoc = f[1] == "1",
+            "tbexact" => tbo.exact_errors = f[1] == "1",
+            "dropdoctype" => tbo.drop_doctype = f[1] == "1",
             "ctxscripting" => form = f[1] == "1",
             "form" => with_form = f[1] == "1",
             "detach" => detach.push((f[1].parse().unwrap(), f[2].parse().unwrap())),
@@ -318,7 +320,10 @@ fn htmldoc(inp: &str) {
                     }
                     pause(&p, "Script result")
                 },
-                TokenizerResult::EncodingIndicator(_) => pause(&p, "EncodingIndicator result"),
+                TokenizerResult::EncodingIndicator(l) => {
+                    println!("indicator {}", hx(l.as_bytes()));
+                    pause(&p, "EncodingIndicator result")
+                },
             }
         }
         pause(&p, "chunk boundary");
@@ -503,7 +508,7 @@ fn main() {
             "inject" => inject = Some(String::from_utf8(unhex(v)).unwrap()),
             "content" => content = String::from_utf8(unhex(v)).unwrap(),
             "bytes" => raw_chunks.push(unhex(v)),
-            "ev" | "tag" | "scripting" | "srcdoc" | "quirks" | "context" | "cattr" | "hchunk" | "ctxscripting" | "form" | "detach" => {},
+            "ev" | "tag" | "scripting" | "srcdoc" | "quirks" | "context" | "cattr" | "hchunk" | "ctxscripting" | "form" | "detach" | "tbexact" | "dropdoctype" => {},
             "" => {},
             x => panic!("directive {x}"),
         }
